@@ -178,6 +178,40 @@ func main() {
 		contents[rw.file] = mod
 		applied = append(applied, rw.name)
 	}
+	// statement-level crash points in the SQL ref store: a kill between two statements of one
+	// method (SQLite rolls an open transaction back; separate statements stay applied)
+	{
+		const f = "pkg/ref/sql/store.go"
+		src, ok := contents[f]
+		if !ok {
+			if b, err := os.ReadFile(filepath.Join(repo, f)); err == nil {
+				src, ok = string(b), true
+			}
+		}
+		if ok {
+			lines := strings.Split(src, "\n")
+			var out []string
+			n := 0
+			for _, l := range lines {
+				if strings.Contains(l, ".Exec(") && !strings.HasPrefix(strings.TrimSpace(l), "//") {
+					ind := l[:len(l)-len(strings.TrimLeft(l, "\t"))]
+					out = append(out, ind+"verifrt.Write(\"refsql.stmt\")")
+					n++
+				}
+				out = append(out, l)
+			}
+			if n > 0 {
+				mod := strings.Join(out, "\n")
+				if !strings.Contains(mod, "pkg/verifrt\"") {
+					if i := strings.Index(mod, "import (\n"); i >= 0 {
+						mod = mod[:i+9] + "\tverifrt \"github.com/wrgl/wrgl/pkg/verifrt\"\n" + mod[i+9:]
+					}
+				}
+				contents[f] = mod
+				applied = append(applied, "crashhook:refsql-stmt")
+			}
+		}
+	}
 	if variant == "sched" {
 		for _, f := range schedFiles {
 			src, ok := contents[f]
